@@ -20,7 +20,7 @@ def cfg : Cfg :=
     guardAffinity := Gen.C02.guardedMethods.contains "cpu_affinity"
     guardPpid := Gen.C02.guardedMethods.contains "ppid"
     pid0Refused := Gen.C02.pid0Refused
-    negRejected := Gen.C02.negRejected
+    negRejected := Gen.C02.negRejectedPy || Gen.C02.negRejectedC
     rlimitPid0Refused := Gen.C02.rlimitPid0Refused
     sigStop := (Gen.C02.signalMap.lookup "suspend").getD 0
     sigCont := (Gen.C02.signalMap.lookup "resume").getD 0
